@@ -69,11 +69,10 @@ theorem findEq_key (key t : List Nat) (lim : Nat) (hk : ∀ c ∈ key, c ≠ 61)
     simp
 
 /-- **One record**: what `add_pax_attr_binary` appends is taken apart again by the reader's loop, for
-any value bytes (newlines, '=' and NULs included); the key is non-empty, has no '=' and — with the
-length digits — ends inside the 512-byte window the reader looks at. -/
+any value bytes (newlines, '=' and NULs included); the key is non-empty and has no '='. -/
 theorem parseRecord_record (key value rest : List Nat) (hk : key ≠ []) (hkeq : ∀ c ∈ key, c ≠ 61)
-    (hkl : key.length ≤ 500) (hlen : recordLen key value ≤ 99999999) (avail : Nat) :
-    parseRecord (record key value ++ rest) avail = some (key, value, rest) := by
+    (hlen : recordLen key value ≤ 99999999) :
+    parseRecord (record key value ++ rest) = some (key, value, rest) := by
   have hdig := recordLen_digits key value
   generalize hL : recordLen key value = L at *
   have hd8 := decDigits_length_le L hlen
@@ -84,8 +83,8 @@ theorem parseRecord_record (key value rest : List Nat) (hk : key ≠ []) (hkeq :
     rw [hrec]; simp only [List.length_append, List.length_cons, List.length_nil]; omega
   unfold parseRecord
   simp only []
-  generalize hWdef : max 512 avail = W
-  have hW : 512 ≤ W := by rw [← hWdef]; exact Nat.le_max_left ..
+  generalize hWdef : (512 : Nat) = W
+  have hW : 512 ≤ W := by omega
   -- the window
   have hw : (record key value ++ rest).take W = D ++ 32 :: ((key ++ 61 :: (value ++ [10]) ++ rest).take (W - D.length - 1)) := by
     rw [hrec, List.append_assoc, List.take_append, List.take_of_length_le (by omega)]
@@ -102,12 +101,6 @@ theorem parseRecord_record (key value rest : List Nat) (hk : key ≠ []) (hkeq :
   rw [hwl]
   have htot : (record key value ++ rest).length = L + rest.length := by rw [List.length_append, hreclen]
   rw [if_neg (by omega)]
-  have hwlen : D.length + 1 + key.length + 1 ≤
-      (D ++ 32 :: ((key ++ 61 :: (value ++ [10]) ++ rest).take (W - D.length - 1))).length := by
-    simp only [List.length_append, List.length_cons, List.length_take, List.length_nil]; omega
-  have hlim : D.length + 1 + key.length + 1 ≤
-      min (D ++ 32 :: ((key ++ 61 :: (value ++ [10]) ++ rest).take (W - D.length - 1))).length L := by
-    rw [Nat.le_min]; exact ⟨hwlen, by omega⟩
   rw [if_neg (by omega)]
   have hdrop : (record key value ++ rest).drop (D.length + 1) = key ++ 61 :: (value ++ [10] ++ rest) := by
     rw [hrec]
@@ -145,25 +138,25 @@ theorem parseRecord_record (key value rest : List Nat) (hk : key ≠ []) (hkeq :
   have hrest : (record key value ++ rest).drop L = rest := by rw [← hreclen, List.drop_left]
   rw [hrest]
 
-/-- What the writer hands to `add_pax_attr*`: a non-empty key without '=' that (with the length
-digits) fits the reader's 512-byte look-ahead, and a record of at most 99999999 bytes. -/
+/-- What the writer hands to `add_pax_attr*`: a non-empty key without '=' and a record of at most
+99999999 bytes. -/
 def RecordOK (kv : List Nat × List Nat) : Prop :=
-  kv.1 ≠ [] ∧ (∀ c ∈ kv.1, c ≠ 61) ∧ kv.1.length ≤ 500 ∧ recordLen kv.1 kv.2 ≤ 99999999
+  kv.1 ≠ [] ∧ (∀ c ∈ kv.1, c ≠ 61) ∧ recordLen kv.1 kv.2 ≤ 99999999
 
 theorem record_ne_nil (k v : List Nat) : record k v ≠ [] := by
   unfold record; simp
 
-theorem parseRecords_records (kvs : List (List Nat × List Nat)) (h : ∀ kv ∈ kvs, RecordOK kv) (avail : Nat) :
-    parseRecords kvs.length (kvs.flatMap fun kv => record kv.1 kv.2) avail = some kvs := by
+theorem parseRecords_records (kvs : List (List Nat × List Nat)) (h : ∀ kv ∈ kvs, RecordOK kv) :
+    parseRecords kvs.length (kvs.flatMap fun kv => record kv.1 kv.2) = some kvs := by
   induction kvs with
   | nil => rfl
   | cons kv r ih =>
-    obtain ⟨hk, hkeq, hkl, hlen⟩ := h kv (List.mem_cons_self ..)
+    obtain ⟨hk, hkeq, hlen⟩ := h kv (List.mem_cons_self ..)
     simp only [List.length_cons, List.flatMap_cons, parseRecords]
     have hne : record kv.1 kv.2 ++ List.flatMap (fun kv => record kv.1 kv.2) r ≠ [] := by
       intro hh
       exact record_ne_nil kv.1 kv.2 (List.append_eq_nil_iff.1 hh).1
-    rw [if_neg hne, parseRecord_record kv.1 kv.2 _ hk hkeq hkl hlen avail]
+    rw [if_neg hne, parseRecord_record kv.1 kv.2 _ hk hkeq hlen]
     simp only []
     rw [ih (fun kv' h' => h kv' (List.mem_cons_of_mem _ h'))]
     rfl
